@@ -2126,14 +2126,21 @@ def _adapter_on_values(drv, repo, wcls, w_sampler, w_cancel, w_done):
     return verdicts, arun, ga[0]
 
 
-def _drive_on_values(drv, wcls, drive_name, view_attr, w_cancel, w_done, complete_from_call=None, calls=9):
+def _drive_on_values(drv, wcls, drive_name, view_attr, w_cancel, w_done, complete_from_call=None, calls=9, handlers=None, complete_when=None):
     """O1.9 (which rows the worker executes) on VALUES: Worker.drive - whatever it was split into, whether it repeats itself for a skipped row by recursion or in a loop - is
     interpreted on a model worker (its own constructor; the two request events, the thread pool, send / wakeupAfter / send_samples replaced by recording stand-ins; nothing of the
     repository is executed) over the model rows
          0 join point | 1 tasks | 2 empty | 3 tasks | 4 join point | 5 tasks | 6 tasks | 7 join point
     drive() is called once per Drive / wake-up that would call it; with complete_from_call=k the complete event is set before the k-th call (a CompleteCurrentTask that arrives while
     the row of call k-1 runs). Returns per call the list of what it did: ("jp", row) a JoinPointReached message sent (row: the one it carries, else the last one read),
-    ("run", row) an executor adapter built from that row handed to the pool. Raises _Cannot outside the interpreted subset."""
+    ("run", row) an executor adapter built from that row handed to the pool. Raises _Cannot outside the interpreted subset.
+    With handlers=(name of the Drive handler, name of the WakeupMessage handler) nothing is assumed about WHICH wake-up calls drive(): the model worker is driven through its own
+    message handlers (O1.12). drive() is called once (the end of the start-up handler); from then on every report of a join point is answered by ONE delivery of Drive (the driver's
+    answer once all workers have arrived), and every wake-up the worker armed (wakeupAfter - counted, whatever delay it asks for) is delivered, one per step, to the WakeupMessage
+    handler. The future the pool returns says done() == False at its first poll and True from the second one on (a row that takes longer than one wake-up interval), has no
+    exception and is not running afterwards. complete_when=("running", r): the complete event is set right after the delivery that handed row r to the pool;
+    complete_when=("pending", r): right after the Drive that answers the report of join point r (before the start wake-up). Returns (one list of events per delivery that did
+    something, complete event still set?, outcome) with outcome None when the last join point was reported, else what stopped the worker."""
     JP, EMPTY, LAST = {0, 4, 7}, {2}, 7
     reads, trace, empties = [], [], {}
 
@@ -2193,8 +2200,19 @@ def _drive_on_values(drv, wcls, drive_name, view_attr, w_cancel, w_done, complet
             raise _Cannot("what the worker hands to its thread pool is not built from the row it read")
         trace[-1].append(("run", r))
         done = lambda *a_, **k_: None  # noqa: E731
-        done._model_callable = True
-        return _Obj(None, result=done, _label="future")
+        polls = {"n": 0}
+
+        def is_done(*a_, **k_):
+            polls["n"] += 1
+            box["polled"] = True
+            return polls["n"] >= 2
+
+        def running(*a_, **k_):
+            return polls["n"] < 2
+
+        for f_ in (done, is_done, running):
+            f_._model_callable = True
+        return _Obj(None, result=done, done=is_done, exception=done, running=running, _label="future")
 
     def send(target, msg=None, *a, **k):
         if isinstance(msg, _Obj) and msg.cls is not None and msg.cls.name == "JoinPointReached":
@@ -2204,12 +2222,18 @@ def _drive_on_values(drv, wcls, drive_name, view_attr, w_cancel, w_done, complet
     def nothing(*a, **k):
         return None
 
-    for f in (tasks, is_joinpoint, submit, send, nothing):
+    box = {"armed": 0, "polled": False}
+
+    def arm(*a, **k):
+        box["armed"] += 1
+
+    for f in (tasks, is_joinpoint, submit, send, nothing, arm):
         f._model_callable = True
     pools = {c.func.value.attr for m in drv.methods(wcls).values() for c in source.calls_in(m, attr="submit") if isinstance(c.func, ast.Attribute) and is_self_attr(c.func.value)}
     if len(pools) != 1:
         raise AnchorMissing("the worker attribute whose submit(...) starts the executor (self.<pool>.submit(...))")
-    mach = _Machine(drv, attr_hook=lambda obj, name: {"send": send, "wakeupAfter": nothing}.get(name, NotImplemented))
+    mach = _Machine(drv, attr_hook=lambda obj, name: {"send": send, "wakeupAfter": arm}.get(name, NotImplemented),
+                    call_hook=(lambda d, a, k: 0.0 if d in ("time.perf_counter", "time.time", "time.monotonic") else NotImplemented) if handlers else None)
     wobj = mach.new(wcls)
     # attributes still None after the constructor that the drive routine (and what it calls) never stores: filled in by the start-up handlers from messages / the configuration
     # (configuration, track, ids, intervals ...) - values without a representative. What drive() itself manages (the pending future, the sampler ...) keeps its initial value.
@@ -2221,6 +2245,45 @@ def _drive_on_values(drv, wcls, drive_name, view_attr, w_cancel, w_done, complet
     (done_ev, done_st), (cancel_ev, _) = event("complete event"), event("cancel event")
     wobj.fields.update({view_attr: _Obj(None, tasks=tasks, is_joinpoint=is_joinpoint, _label="row view"), w_done: done_ev, w_cancel: cancel_ev,
                         next(iter(pools)): _Obj(None, submit=submit, _label="pool"), "send_samples": nothing})
+    if handlers is not None:
+        drive_h, wake_h = handlers
+        for h_ in handlers:
+            if mach._member(wcls, h_)[0] is None:
+                raise AnchorMissing(f"{wcls.name}.{h_}")
+        outcome, idle, answered = None, 0, set()
+        trace.append([])
+        try:
+            mach.apply(mach.getattr(wobj, drive_name), [], {})
+            for _step in range(80):
+                reported = [x[1] for c_ in trace for x in c_ if x[0] == "jp"]
+                if LAST in reported:
+                    break
+                todo = [r for r in reported if r not in answered]
+                trace.append([])
+                if todo:
+                    answered.add(todo[0])
+                    mach.apply(mach.getattr(wobj, drive_h), [_Obj(None, client_start_timestamp=0.0, _label="Drive"), _Opaque("sender")], {})
+                    if complete_when == ("pending", todo[0]):
+                        done_st["v"] = True
+                    continue
+                if not box["armed"]:
+                    outcome = "no wake-up is armed and no join point report is outstanding: nothing will ever call the worker again"
+                    break
+                box["armed"] -= 1
+                box["polled"] = False
+                mach.apply(mach.getattr(wobj, wake_h), [_Opaque("WakeupMessage"), _Opaque("sender")], {})
+                if complete_when is not None and complete_when[0] == "running" and ("run", complete_when[1]) in trace[-1]:
+                    done_st["v"] = True
+                idle = 0 if trace[-1] or box["polled"] else idle + 1
+                if idle >= 6:
+                    outcome = ("six wake-ups in a row were delivered while no executor was running and no Drive was outstanding, and none of them advanced the worker "
+                               f"(row index stays at {reads[-1] if reads else None}): it polls for ever, the join point is never reported")
+                    break
+            else:
+                outcome = "the last join point is not reported within 80 deliveries"
+        except _PastEnd:
+            outcome = "the worker walked past the last join point"
+        return [c_ for c_ in ([x for x in c_ if not (x[0] == "run" and x[1] in EMPTY)] for c_ in trace) if c_], done_st["v"], outcome
     for k in range(1, calls + 1):
         if complete_from_call == k:
             done_st["v"] = True
@@ -2234,6 +2297,98 @@ def _drive_on_values(drv, wcls, drive_name, view_attr, w_cancel, w_done, complet
     # an executor started for an EMPTY row has nothing to run (no client is allocated to anything there): harmless for this property, not part of the comparison
     idle = lambda c_: bool(c_) and all(x[0] == "run" and x[1] in EMPTY for x in c_)  # noqa: E731
     return [[x for x in c_ if not (x[0] == "run" and x[1] in EMPTY)] for c_ in trace if not idle(c_)], done_st["v"]
+
+
+def _same_entry(a, b, depth=0):
+    """two values of two evaluations of the matrix builder on the SAME model schedule stand for the same matrix entry: model tasks (objects of the rule) by identity, objects of
+    classes of the module field by field, containers element by element, plain values by equality; a value without a representative says nothing"""
+    if isinstance(a, _Opaque) or isinstance(b, _Opaque) or depth > 6:
+        return True
+    if isinstance(a, _Obj) or isinstance(b, _Obj):
+        if not (isinstance(a, _Obj) and isinstance(b, _Obj)) or a.cls is not b.cls:
+            return False
+        if a.cls is None:
+            return a is b
+        return set(a.fields) == set(b.fields) and all(_same_entry(a.fields[k], b.fields[k], depth + 1) for k in a.fields)
+    if isinstance(a, (list, tuple)) and isinstance(b, (list, tuple)):
+        return len(a) == len(b) and all(_same_entry(x, y, depth + 1) for x, y in zip(a, b))
+    if isinstance(a, (set, frozenset)) and isinstance(b, (set, frozenset)):
+        return len(a) == len(b) and all(any(_same_entry(x, y, depth + 1) for y in b) for x in a)
+    if isinstance(a, dict) and isinstance(b, dict):
+        return set(a) == set(b) and all(_same_entry(a[k], b[k], depth + 1) for k in a)
+    return type(a) is type(b) and a == b
+
+
+def _start_up_on_values(drv, driver_cls, start_name, hosts, sched):
+    """O1.13 (which rows the workers are started with) on VALUES. Driver.start_benchmark - with whatever it was split into - is interpreted on a model driver (its own constructor;
+    attributes the constructor leaves None and the routine never stores are values without a representative; conditions on the configuration are taken as False) for the model
+    schedule `sched` and the load driver hosts `hosts` ([{"host": .., "cores": ..}]): the matrix builder class is constructed with the model schedule wherever the routine
+    constructs it, calculate_worker_assignments(...) is interpreted with the model hosts in the place of its non-integer argument, `create_client` / `start_worker` of the driver's
+    actor are recording stand-ins. Read off the recorded start_worker(...) calls: the one row view (a ClientAllocations of the module, filled by the interpreted code through its own
+    adder) each worker was started with, and through the view's OWN tasks(index) method the (client id, entry) pairs it yields at every index.
+    Returns (reference matrix, [[(index, client id, entry), ...] per started worker]); raises _Cannot / AnchorMissing when a role is not located or outside the interpreted subset."""
+    A, builder, is_prop = _matrix_builder(drv)
+    CA, JPc, TAc = drv.cls("ClientAllocations"), drv.cls("JoinPoint"), drv.cls("TaskAllocation")
+    tk = drv.methods(CA).get("tasks")
+    cwa = [f for f in drv.functions() if f.name == "calculate_worker_assignments"]
+    start, _ = _Machine(drv)._member(driver_cls, start_name)
+    if tk is None or len(cwa) != 1 or start is None:
+        raise AnchorMissing("ClientAllocations.tasks / calculate_worker_assignments / Driver.start_benchmark")
+    started, created = [], []
+
+    def create_client(*a, **k):
+        created.append(_Obj(None, _label=f"worker #{len(created)}", args=list(a) + list(k.values())))
+        return created[-1]
+
+    def start_worker(*a, **k):
+        started.append(list(a) + list(k.values()))
+
+    create_client._model_callable = start_worker._model_callable = True
+    state = {"built": 0, "assigned": 0}
+
+    def hook(d, args, kwargs):
+        if d == A.name:
+            state["built"] += 1
+            return mach.new(A, [list(sched)])
+        if d == cwa[0].name:
+            state["assigned"] += 1
+            swap = lambda v: v if isinstance(v, int) and not isinstance(v, bool) else [dict(h) for h in hosts]  # noqa: E731
+            return mach.call_function(cwa[0], [swap(v) for v in args], {k: swap(v) for k, v in kwargs.items()})
+        return NotImplemented
+
+    mach = _Machine(drv, call_hook=hook, choose=lambda node: False)
+    actor_ = _Obj(None, create_client=create_client, start_worker=start_worker, _label="driver actor")
+    dobj = mach.new(driver_cls, [actor_, _Opaque("config")])
+    own = {t_.attr for f_ in _closure_in_module(drv, start) for n in walk_body(f_) if isinstance(n, (ast.Assign, ast.AnnAssign, ast.AugAssign))
+           for t_ in (n.targets if isinstance(n, ast.Assign) else [n.target]) if is_self_attr(t_)}
+    for k_, v_ in list(dobj.fields.items()):
+        if v_ is None and k_ not in own:
+            dobj.fields[k_] = _Opaque(f"driver.{k_}")
+    mach.apply(mach.getattr(dobj, start_name), [], {})
+    if not state["built"] or not state["assigned"]:
+        raise _Cannot(f"{driver_cls.name}.{start_name} does not construct {A.name}(...) / call {cwa[0].name}(...) by name")
+    ref = mach.new(A, [list(sched)])
+    M = mach.getattr(ref, builder.name) if is_prop else mach.apply(mach.getattr(ref, builder.name), [], {})
+    if not (isinstance(M, (list, tuple)) and M and all(isinstance(r, (list, tuple)) for r in M) and len({len(r) for r in M}) == 1):
+        raise _Cannot("the allocation matrix of the model schedule is not a rectangle of rows")
+    is_entry = lambda v: isinstance(v, _Obj) and v.cls in (JPc, TAc)  # noqa: E731
+    out = []
+    for rec in started:
+        views = [v for v in rec if isinstance(v, _Obj) and v.cls is CA]
+        if len(views) != 1:
+            raise _Cannot(f"start_worker(...) is handed {len(views)} {CA.name} objects")
+        got = []
+        for i in range(len(M[0])):
+            for e in mach._iter(mach.apply(mach.getattr(views[0], tk.name), [i], {}), tk):
+                vals = list(e.astuple()) if isinstance(e, _Rec) else [v for k_, v in e.fields.items() if k_ != "_label"] if isinstance(e, _Obj) and not is_entry(e) \
+                    else list(e) if isinstance(e, (tuple, list)) else None
+                ids = [v for v in (vals or []) if isinstance(v, int) and not isinstance(v, bool)]
+                ents = [v for v in (vals or []) if is_entry(v)]
+                if len(ids) != 1 or len(ents) != 1:
+                    raise _Cannot(f"the row view returns `{e!r}`: not a (client id, entry) pair")
+                got.append((i, ids[0], ents[0]))
+        out.append(got)
+    return [list(r) for r in M], out
 
 
 class _AlreadyDecided(Exception):
@@ -2288,7 +2443,9 @@ def run(chk):
         "the complete event is set only with cause; every normal exit of the wake-up chain has scheduled a successor (no dead end); "
         "the allocation matrix (O1.1), the worker's row index and the row view (O1.9, O1.10) are decided on VALUES: the builder / the methods are interpreted as syntax trees on model "
         "schedules and a model matrix (local interpreter, nothing of the repository is executed); methods are analysed together with the private helpers extracted from them; "
-        "the first of several co-located clients of the task named by completed-by must not set the worker-wide complete event on static conditions alone (O1.11, decided on values)."
+        "the first of several co-located clients of the task named by completed-by must not set the worker-wide complete event on static conditions alone (O1.11, decided on values); "
+        "the worker driven through its own Drive / WakeupMessage handlers reaches every join point, with and without a completion request (O1.12, on values); "
+        "Driver.start_benchmark hands every client's matrix row to exactly one worker under the client's own id on layouts with several clients per worker (O1.13, on values)."
     )
     chk.not_decided = ("races between the executor thread and the actor thread, FIFO/fairness assumptions, 'every client runs its task exactly once' as a count, "
                        "virtual time; the set of interleavings is not enumerated.")
@@ -3220,6 +3377,44 @@ def run(chk):
                f"complete event set while row 1 runs -> {cut}" + ("" if ok else ": expected [jp 0], [run 1], then (row 3 skipped or run) jp 4 reported, then run 5, run 6, jp 7"),
                key=f"{_D}:Worker.drive:completion-request-ends-at-join-point")
 
+    # ---- O1.12 the worker, driven through its own handlers, reaches every join point ---------------------------------------------------------------
+    chk.rule("O1.12", "the worker driven through its own message handlers reaches every join point (Worker.drive, the Drive handler and the WakeupMessage handler interpreted on a "
+             "model worker over model rows; every wake-up the worker arms is delivered, every join point report is answered by one Drive, the executor's future is done at its "
+             "second poll): whichever way a routine hands over to the next step - a direct call, a flag plus a wake-up - the hand-over is one the receiving handler acts on. Without a "
+             "completion request every task row is executed once, in order; after a completion request (while a row runs / between Drive and the start wake-up) the rows up to the "
+             "next join point may be skipped, the join point is reported and the next element runs in full", 3,
+             "parallel element with more tasks than clients and completed-by (or CompleteCurrentTask arriving between Drive and the start wake-up): the worker skips a row and then "
+             "waits for a wake-up whose handler finds nothing to do - it polls for ever, never reports the join point, the other workers are never told to complete, the race hangs")
+    with _Section(chk, "O1.12"):
+        wd0 = W.methods.get("drive")
+        if wd0 is None:
+            raise AnchorMissing("Worker.drive")
+        hs = ("receiveMsg_Drive", "receiveMsg_WakeupMessage")
+
+        def _judge(flat, cut_in):
+            """flat list of events against: jp 0, rows 1 and 3 (element A), jp 4, rows 5 and 6 (element B), jp 7. Rows of element A that come after the point `cut_in` at which the
+            completion request arrives (index into [1, 3]) may be left out; everything else is mandatory, once, in order."""
+            a_rows = [("run", 1), ("run", 3)]
+            if flat[:1] != [("jp", 0)] or ("jp", 4) not in flat:
+                return False
+            seg = flat[1:flat.index(("jp", 4))]
+            must = a_rows if cut_in is None else a_rows[:cut_in]
+            opt = [] if cut_in is None else a_rows[cut_in:]
+            ok_a = seg[:len(must)] == must and seg[len(must):] in [opt[:i] for i in range(len(opt) + 1)]
+            return ok_a and flat[flat.index(("jp", 4)) + 1:] == [("run", 5), ("run", 6), ("jp", 7)]
+
+        for title, when, cut_in, key in (
+                ("no completion request: every task row is executed once, in order, every join point is reported", None, None, "handlers-rows-executed"),
+                ("completion request while row 1 runs: the next join point is reported, the next element runs in full", ("running", 1), 1, "handlers-completion-while-running"),
+                ("completion request between Drive and the start wake-up: the next join point is reported, the next element runs in full", ("pending", 0), 0,
+                 "handlers-completion-before-start")):
+            tr_, _, outcome = _drive_on_values(drv, W.node, wd0.name, view_attr, w_cancel, w_done, handlers=hs, complete_when=when)
+            flat = [x for c_ in tr_ for x in c_]
+            ok = outcome is None and _judge(flat, cut_in)
+            chk.ob("O1.12", title, ok, wm.get(wd0.name, wd0), "rows JP, tasks, empty, tasks, JP, tasks, tasks, JP; Drive / wake-ups delivered to the worker's own handlers -> "
+                   + f"{flat}" + ("" if ok else (f": {outcome}" if outcome else ": a task row is skipped without cause, executed twice or out of order, or a join point is passed without a report")),
+                   key=f"{_D}:Worker.drive:{key}")
+
     # ---- O1.10 every allocated (client, task) pair is run exactly once ------------------------------------------------------------------------------
     chk.rule("O1.10", "the worker's row view pairs every client with its own non-empty entry at the index; the executor adapter creates exactly one executor per (client, task allocation) "
              "of the row, unconditionally, and awaits all of them; one parameter source per task", 6,
@@ -3349,6 +3544,42 @@ def run(chk):
         else:
             ok = len(ga0) == 1 and awl is not None and [u(x) for x in ga0[0].args] == [f"*{awl}"] and isinstance(source.parent(ga0[0]), ast.Await)
             chk.ob("O1.10", "all executors of the row are awaited together", ok, ga0[0], "")
+
+    # ---- O1.13 every client's matrix row is handed to exactly one worker, under the client's own id ------------------------------------------------
+    chk.rule("O1.13", "the workers are started with the allocation matrix split by client: Driver.start_benchmark (with whatever it delegates to) interpreted on model load-driver "
+             "layouts in which workers simulate several clients hands every (client c, index i) with a non-empty matrix entry to exactly ONE worker, as the pair (c, entry [c][i] "
+             "of the matrix) - read through the row view's own tasks(i); no worker is started without a client", 2,
+             "more clients than cores on a load driver host (4 clients on 2 cores): the clients of a worker run the row of another client - its tasks (and its slot of a "
+             "multi-client task) run twice, the rows of the other clients run never; join points are on every row so the race still completes")
+    with _Section(chk, "O1.13"):
+        T_, P_ = _leaf, _par
+        sched_ = [P_("p", [T_("a", 1), T_("b", 1), T_("c", 1), T_("d", 1)]), T_("e", 4)]
+        sb_node = dm.get("start_benchmark") or Driver
+        for lname, hosts_ in (("1 host x 2 cores, 4 clients", [{"host": "h0", "cores": 2}]),
+                              ("2 hosts (1 core, 3 cores), 4 clients", [{"host": "h0", "cores": 1}, {"host": "h1", "cores": 3}])):
+            M_, per_worker = _start_up_on_values(drv, Driver, "start_benchmark", hosts_, sched_)
+            seen_, bad_ = {}, []
+            for wi, got_ in enumerate(per_worker):
+                if not got_:
+                    bad_.append(f"worker #{wi} is started without any client: it can never report a join point")
+                for i, cid, ent in got_:
+                    seen_.setdefault((cid, i), []).append((wi, ent))
+            for c in range(len(M_)):
+                for i, want_e in enumerate(M_[c]):
+                    have = seen_.pop((c, i), [])
+                    if want_e is None:
+                        if have:
+                            bad_.append(f"client {c} is handed an entry at index {i} where its matrix row is empty")
+                    elif len(have) != 1:
+                        bad_.append(f"client {c}, index {i}: handed to {len(have)} worker(s) (workers {[w_ for w_, _ in have]}) instead of exactly one")
+                    elif not _same_entry(have[0][1], want_e):
+                        whose = [c2 for c2 in range(len(M_)) if M_[c2][i] is not None and _same_entry(have[0][1], M_[c2][i])]
+                        bad_.append(f"client {c}, index {i}: worker #{have[0][0]} runs it on {have[0][1]!r}" + (f", the entry of client {whose[0]}'s row" if whose else "") + f", not on its own {want_e!r}")
+            for (cid, i) in sorted(seen_):
+                bad_.append(f"a worker is handed a row under the client id {cid}, which the matrix of {len(M_)} rows does not have")
+            chk.ob("O1.13", f"{lname}: every client's row goes to exactly one worker under the client's own id", not bad_, sb_node,
+                   f"par(a, b, c, d), e x4 -> {len(per_worker)} worker(s) with {[sorted({c_ for _, c_, _ in g_}) for g_ in per_worker]}"
+                   + ("" if not bad_ else f": {bad_[0]}" + (f" (+{len(bad_) - 1} more)" if len(bad_) > 1 else "")), key=f"{_D}:Driver.start_benchmark:rows-by-client")
 
     # ---- O1.11 the named task is done when ALL its clients are done (F44) ---------------------------------------------------------------------------
     chk.rule("O1.11", "a client of the task named by completed-by sets the worker-wide complete event only under a condition that depends on the progress of the task's other clients: "
@@ -3726,4 +3957,38 @@ VARIANTS += [
       "        if self.at_joinpoint() and not self.complete.is_set():\n            self.logger.debug(\"Worker[%d] reached join point", None),
     V("h4 keep: skipping an empty row by `while not task_allocations`", "keep", _D, "        while len(task_allocations) == 0:\n            task_allocations = self.current_tasks_and_advance()\n\n        if self.at_joinpoint():",
       "        while not task_allocations:\n            task_allocations = self.current_tasks_and_advance()\n\n        if self.at_joinpoint():"),
+]
+
+# O1.12 (the worker driven through its own handlers, seeds C01-m13) / O1.13 (the matrix rows the workers are started with, C01-m14)
+_SKIP_OLD = ("                # nothing is executed for the skipped tasks so no wakeup is pending: continue with the next entry right away.\n                self.drive()\n")
+_WK_NEXT = "                    self.executor_future = None\n                    self.drive()\n"
+_ROW_ADD = "                        client_allocations.add(client_id, self.allocations[client_id])\n"
+
+VARIANTS += [
+    V("s5 break (C01-m13): after skipping a row the worker arms a zero-delay wake-up, whose handler finds neither the start flag nor a finished future", "break", _D, _SKIP_OLD,
+      "                self.wakeupAfter(datetime.timedelta(seconds=0))\n", "O1.12"),
+    V("s5 break: after skipping a row the worker waits for a regular polling wake-up", "break", _D, _SKIP_OLD,
+      "                self.wakeupAfter(datetime.timedelta(seconds=self.wakeup_interval))\n", "O1.12"),
+    V("s5 break: the wake-up handler forgets the finished future AFTER driving on - it forgets the future of the row just started, no later wake-up advances the worker", "break", _D, _WK_NEXT,
+      "                    self.drive()\n                    self.executor_future = None\n", "O1.12"),
+    V("s5 break: the Drive handler arms the start wake-up under a flag of its own that the wake-up handler does not read", "break", _D,
+      "        self.start_driving = True\n        self.wakeupAfter(sleep_time)\n", "        self.drive_pending = True\n        self.wakeupAfter(sleep_time)\n", None),
+    V("s5 keep: after skipping a row the worker hands over through the start flag and a zero-delay wake-up (a hand-over the wake-up handler acts on)", "keep", _D, _SKIP_OLD,
+      "                self.start_driving = True\n                self.wakeupAfter(datetime.timedelta(seconds=0))\n"),
+    V("s5 keep: the skip branch returns the result of the direct continuation", "keep", _D, _SKIP_OLD, "                return self.drive()\n"),
+    V("s5 keep: the wake-up handler tests the pending future by truth", "keep", _D, "            elif self.executor_future is not None and self.executor_future.done():\n",
+      "            elif self.executor_future and self.executor_future.done():\n"),
+    V("s5 break (C01-m14): every client of a worker is handed the matrix row of the worker's id", "break", _D, _ROW_ADD,
+      "                        client_allocations.add(client_id, self.allocations[worker_id])\n", "O1.13"),
+    V("s5 break: the client's row is stored under the id of the worker", "break", _D, _ROW_ADD, "                        client_allocations.add(worker_id, self.allocations[client_id])\n", "O1.13"),
+    V("s5 break: the first client of every worker is left out (its row is run by nobody)", "break", _D, "                    for client_id in clients:\n                        client_allocations.add(",
+      "                    for client_id in clients[1:]:\n                        client_allocations.add(", "O1.13"),
+    V("s5 break: the row is looked up by the client's position within its worker", "break", _D, "                    for client_id in clients:\n" + _ROW_ADD,
+      "                    for pos, client_id in enumerate(clients):\n                        client_allocations.add(client_id, self.allocations[pos])\n", "O1.13"),
+    V("s5 break: workers that simulate a single client are not started", "break", _D, "                if len(clients) > 0:\n", "                if len(clients) > 1:\n", None),
+    V("s5 keep: the client's row travels through a local", "keep", _D, _ROW_ADD,
+      "                        row = self.allocations[client_id]\n                        client_allocations.add(client_id, row)\n"),
+    V("s5 keep: the rows of a worker are collected from the matrix read off a local, clients in sorted order", "keep", _D, "                    for client_id in clients:\n" + _ROW_ADD,
+      "                    matrix = self.allocations\n                    for client_id in sorted(clients):\n                        client_allocations.add(client_id, matrix[client_id])\n"),
+    V("s5 keep: workers without clients are skipped by truth of the client list", "keep", _D, "                if len(clients) > 0:\n", "                if clients:\n"),
 ]
